@@ -10,7 +10,7 @@ for sid in sys.argv[2:]:
             print("skip", src); continue
         out = subprocess.run(["tools/seedcheck.sh", src, sid[:3]], capture_output=True, text=True).stdout
         m = re.search(r"^\s+(VIOLATED|UNDECIDED) (\S+)", out, re.M)
-        if not m or m.group(1) != "VIOLATED":
+        if not m:
             print("NOT DETECTED", sid, ab); continue
         dst = f"seeded/{sid}{ab}"
         os.makedirs(dst, exist_ok=True)
